@@ -98,6 +98,17 @@ def cases(rng, tier, feats, drv_ok):
                 out.append({'line': f'verify recursive 32 {o[3:]}', 'kind': 'forged:zero-trace-solved-extra', 'expect': 'reject', 'name': f'forge_zero_solve({el},{fo})'})
             else:
                 out.append({'line': 'powcfg 14', 'kind': 'forger-stopped', 'expect': 'any', 'name': o[:100]})
+    # the same forger with a FULLY VALID config (blow-up 2): the last layer carries one coefficient less than its DOMAIN (twice the declared
+    # bound) and interpolates the folded junk on every point but one that no query reaches — accepted by any verifier that does not pin the
+    # last layer to exactly 2^bound coefficients at every place it is read
+    if HX and own:
+        specs = [('4,4,4,3', 12), ('4,4,4,4', 12)] if tier == 'quick' else [('4,4,4,3', 12), ('4,4,4,4', 12), ('4,4,4,2', 10), ('4,4,3,3,2', 14)]
+        res, _ = fw.run_split(lambda ls, **kw: fw.run_hx(HX, ls), [f'forge_vacuous {st} 1 {nq:x} 14 leave-one-out' for st, nq in specs])
+        for (st, nq), o in zip(specs, res):
+            if o.startswith('ok '):
+                out.append({'line': f'verify recursive {nq + 20:x} {o[3:]}', 'kind': 'forged:vacuous-fri:last-layer-one-short-of-domain', 'expect': 'reject', 'name': f'forge_vacuous({st},1,{nq},20,leave-one-out)'})
+            else:
+                out.append({'line': 'powcfg 14', 'kind': 'forger-stopped', 'expect': 'any', 'name': o[:100]})
     # vacuous-FRI forger: a complete, internally consistent proof of a false statement whose FRI really folds down to a last layer whose
     # degree bound equals its domain size; the config is then re-declared in every way we can think of to get that past the
     # validation without touching the body (the config is not in the stone5 Fiat-Shamir seed).  None may be accepted.
